@@ -82,6 +82,29 @@ func genValidSrvReq(t *Tape, fc byte, unit byte, tid uint16) (SrvReq, bool) {
 	return SrvReq{Frame: lr.Bytes(), FC: fc, TID: tid, Unit: unit, Class: "valid"}, true
 }
 
+// genBigWriteReq: a write request at or just below the largest size the function allows (222-259 bytes on the wire).
+func genBigWriteReq(t *Tape, fc byte, unit byte, tid uint16) (SrvReq, bool) {
+	r := Req{FC: fc, Addr: uint16(t.Choose(60000))}
+	switch fc {
+	case 15:
+		n := 1968 - t.Choose(200)
+		r.Coils = make([]bool, n)
+		for i := range r.Coils {
+			r.Coils[i] = i%3 == 0
+		}
+	case 16:
+		r.Regs = t.Bytes(2 * (123 - t.Choose(16)))
+	case 23:
+		r.Qty, r.WAddr = uint16(1+t.Choose(10)), uint16(t.Choose(60000))
+		r.Regs = t.Bytes(2 * (121 - t.Choose(14)))
+	}
+	lr, err := BuildLibRequest(r, unit, tid, TCP)
+	if err != nil {
+		return SrvReq{}, false
+	}
+	return SrvReq{Frame: lr.Bytes(), FC: fc, TID: tid, Unit: unit, Class: "valid"}, true
+}
+
 func genC15(t *Tape) (*SrvScenario, *c15Info, bool) {
 	sc := &SrvScenario{}
 	nconn := 1 + t.PickAs("nconn", 5, 3, 2)
@@ -95,16 +118,28 @@ func genC15(t *Tape) (*SrvScenario, *c15Info, bool) {
 			cutMode = int(t.Named["cutmode"])
 		}
 		nreq := 1 + t.PickAs("nreq", 4, 3, 2, 1, 1, 1)
+		bigBurst := false
+		if plan.Pipelined && !t.Has("nreq") && !t.Has("cutmode") && t.Chance(1, 12) {
+			// a burst of large writes sent back to back: several hundred bytes in flight at once
+			bigBurst = true
+			nreq = 3 + t.Choose(6)
+		}
 		fc17 := false
 		for ri := 0; ri < nreq; ri++ {
 			fc := AllFCs[t.ChooseAs("fc", len(AllFCs))]
+			if bigBurst {
+				fc = []byte{16, 16, 15, 23}[t.Choose(4)]
+			}
 			// small requests most of the time: the cut space of short streams is what matters
 			tid := uint16(tidBase + ci*16 + ri)
 			r, ok := genValidSrvReq(t, fc, byte(1+ci), tid)
+			if bigBurst {
+				r, ok = genBigWriteReq(t, fc, byte(1+ci), tid)
+			}
 			if !ok {
 				return nil, nil, false
 			}
-			if !t.Has("fc") && t.Chance(1, 10) {
+			if !bigBurst && !t.Has("fc") && t.Chance(1, 10) {
 				// a frame with an unsupported function code in the stream: answered with an exception, and - like any
 				// other request - it must neither be answered early nor leave anything behind that disturbs the next one
 				r = genC16Req(t, "unsupported_fc", 0, byte(1+ci), tid)
